@@ -439,6 +439,12 @@ def replay(path):
     env.update(RUN_ENV)
     env["ASAN_OPTIONS"] = env["ASAN_OPTIONS"].replace("symbolize=0", "symbolize=1")
     env["UBSAN_OPTIONS"] = "print_stacktrace=1:exitcode=67:halt_on_error=1"
-    cmd = [exe, "--case", str(rep["case"]), "--seed", str(rep["seed"]), "--tier", rep["tier"], "--verbose"]
+    base, _ = flavour_parts(rep["flavour"])
+    wrap = [w for w in FLAVOURS[base].get("wrap", []) if not w.startswith("--log-file")]
+    cmd = wrap + [exe, "--case", str(rep["case"]), "--seed", str(rep["seed"]), "--tier", rep["tier"], "--verbose"]
     print("+", " ".join(cmd))
-    return subprocess.call(cmd, env=env)
+    r = subprocess.run(cmd, env=env, stdout=subprocess.PIPE, text=True, errors="replace")
+    print(r.stdout[-8000:])
+    reproduced = rep["key"] in r.stdout or r.returncode not in (0,)
+    print(f"replay: exit status {r.returncode}; violation {'REPRODUCED' if reproduced else 'not reproduced'} (key {rep['key']})")
+    return 1 if reproduced else 0
